@@ -4094,9 +4094,21 @@ class GraphTraversalReachability:
         commits_set = set(commits)
         result = set(commits_set)
 
+        # Everything reachable means the whole history, not just the given
+        # commits.
+        heads = []
+        for commit_sha in commits_set:
+            try:
+                if isinstance(self.store[commit_sha], Commit):
+                    heads.append(commit_sha)
+            except KeyError:
+                # Commit not in store, skip
+                continue
+        result.update(self.get_reachable_commits(heads))
+
         # Get trees for all commits
         tree_shas = []
-        for commit_sha in commits_set:
+        for commit_sha in result:
             try:
                 commit = self.store[commit_sha]
                 if isinstance(commit, Commit):
@@ -4105,7 +4117,8 @@ class GraphTraversalReachability:
                 # Commit not in store, skip
                 continue
 
-        # Collect all tree/blob objects
+        # Collect all tree/blob objects, and the root trees themselves
+        result.update(tree_shas)
         result.update(self.get_tree_objects(tree_shas))
 
         # Exclude objects from exclude_commits if needed
